@@ -5,8 +5,9 @@ tree (files named `generated*.rs` are read only when they contain a logging macr
 `lean/S3V/Gen/Emit.lean` (only when its content changes):
 
   (a) `logSites`      every `trace!/debug!/info!/warn!/error!` (bare or `tracing::`-qualified), every
-                      `println!/eprintln!/print!/eprint!/dbg!`, every `#[instrument]`/`#[tracing::instrument]`
-                      site: file, line, enclosing fn / impl type, captured expressions (sigil, identifiers,
+                      `println!/eprintln!/print!/eprint!/dbg!`, every error-message macro (`s3_error!`,
+                      `invalid_request!`, `try_!`, …) and formatting macro (`format!`, `write!`, `panic!`, …), every
+                      `#[instrument]`/`#[tracing::instrument]` site: file, line, enclosing fn / impl type, captured expressions (sigil, identifiers,
                       normalised token text), `ret`/`err` flags; for instrument sites the non-skipped parameters
   (b) `exposeSites`   every `.expose()` call: enclosing fn and the statement-level data flow of the result inside
                       that fn (names derived from it, every callee that handles derived data, whether the fn's
@@ -18,7 +19,8 @@ tree (files named `generated*.rs` are read only when they contain a logging macr
                       non-redacting type
 
 The translator is deliberately dumb and refuses (raises `Unrecognised`) what it cannot read: an unterminated
-token, a logging-macro argument of unknown form, an `instrument` argument it does not know, a `Debug` /
+token, a logging-macro argument of unknown form, an `instrument` argument it does not know, a tracing entry point
+it does not read (`event!`, `span!`, `info_span!`, `Span::current()`), a `Debug` /
 `Serialize` body of `SecretKey` outside the listed shapes, a manual `Debug`/`Display`/`Serialize` of a holder
 whose shape it cannot classify, an `.expose()` outside any `fn`.
 """
@@ -28,6 +30,11 @@ import re
 CRATES = ["crates/s3s/src", "crates/s3s-fs/src", "crates/s3s-aws/src"]
 LOG_MACROS = {"trace", "debug", "info", "warn", "error"}
 PRINT_MACROS = {"println", "eprintln", "print", "eprint", "dbg"}
+# macros whose arguments end up in an error message / a formatted string (response bytes, panics, Display impls)
+ERROR_MACROS = {"s3_error", "invalid_request", "wrap_sdk_error", "try_", "ensure", "bail"}
+FORMAT_MACROS = {"format", "write", "writeln", "format_args", "panic", "unreachable", "unimplemented", "todo"}
+# tracing entry points this translator does not read: their presence is refused
+UNREAD_MACROS = {"event", "span", "trace_span", "debug_span", "info_span", "warn_span", "error_span", "enabled"}
 SECRET_TYPE = "SecretKey"
 SECRET_FILE = "crates/s3s/src/auth/secret_key.rs"
 
@@ -575,6 +582,19 @@ class FileScan:
                 if w == "macro_rules" and nxt is not None and nxt.t == "!":
                     # macro definitions: skip the definition body but scan it for sites by plain recursion below
                     pass
+                if nxt is not None and nxt.t == "!" and w in UNREAD_MACROS and i + 2 < n and toks[i + 2].t in ("(", "[", "{") \
+                        and (prev != "::" or (i >= 2 and toks[i - 2].t == "tracing")):
+                    raise Unrecognised(f"{self.where(i)}: `{w}!` is a tracing entry point this translator does not read")
+                if w == "Span" and nxt is not None and nxt.t == "::" and i + 2 < n and toks[i + 2].t == "current":
+                    raise Unrecognised(f"{self.where(i)}: `Span::current()` (fields recorded after the fact) is not a recognised shape")
+                # error-message / formatting macros
+                if nxt is not None and nxt.t == "!" and i + 2 < n and toks[i + 2].t in ("(", "[", "{") \
+                        and (w in ERROR_MACROS or w in FORMAT_MACROS) and prev not in (".", "fn", "macro_rules"):
+                    k = match_close(toks, i + 2)
+                    self.format_site(w, i, toks[i + 3:k], scopes)
+                    attrs = []
+                    i += 2
+                    continue
                 # logging / printing macros
                 if nxt is not None and nxt.t == "!" and i + 2 < n and toks[i + 2].t in ("(", "[", "{") \
                         and (w in LOG_MACROS or w in PRINT_MACROS):
@@ -785,6 +805,22 @@ class FileScan:
                     self.cap(site, "val", p)      # bare `ident` / `a.b` shorthand
                     continue
             raise Unrecognised(f"{where}: argument of {name}! not of a recognised form: {norm(p)}")
+        del site["_fn"]
+        self.log_sites.append(site)
+
+    def format_site(self, name, i, args, scopes):
+        """`s3_error!(…)`, `invalid_request!(…)`, `format!(…)`, `write!(f, …)`, `panic!(…)` …: every top-level argument that
+        is not a string literal is a captured expression; literals contribute their inline `{name}` captures"""
+        site = self.site_base(i, scopes, "errorMsg" if name in ERROR_MACROS else "format")
+        where = self.where(i)
+        for p in split_top(args, ","):
+            if len(p) == 1 and p[0].k == "str":
+                for nm in fmt_inline_names(p[0].val, where):
+                    self.cap(site, "fmtInline", [Tok("ident", nm, p[0].line)])
+            elif len(p) >= 3 and p[0].k == "ident" and p[1].t == "=" and p[1].k == "punct":
+                self.cap(site, "fmtArg", p[2:])
+            else:
+                self.cap(site, "fmtArg", p)
         del site["_fn"]
         self.log_sites.append(site)
 
